@@ -14,7 +14,7 @@ x  -z relro / -z norelro  x  a minimal SECTIONS script.  The subset x output-kin
 exhaustive; what is thinned is stated in `coverage.rule`:
   quick     x86-64; 4 variants per subset with no options + one row of the pairwise option array
             on variant 0 (row chosen by (subset + variant) mod 5)               ~15k links
-  thorough  x86-64: 5 variants with no options + all 5 pairwise rows on variants 0 and 1;
+  thorough  x86-64: 5 variants with no options + all 7 pairwise rows on variants 0 and 1;
             AArch64 (-m aarch64linux): 2 variants, pairwise rows on variant 0      ~60k links
 `-r` takes only the script axis. TLS sections are never the --section-start target when both are
 present (they must stay adjacent); the custom section is the target whenever it is present,
@@ -97,7 +97,11 @@ SCRIPT = """SECTIONS {
 DEFAULT_ROW = (None, False, None, False)
 PAIRWISE = [(4096, False, "relro", False), (4096, True, "norelro", True),
             (65536, False, "norelro", True), (65536, True, "relro", True),
-            (65536, True, "norelro", False)]
+            (65536, True, "norelro", False),
+            # --section-start with a page size BELOW the largest section alignment of the family
+            # (65536) and no script: sections that follow the located one in its segment then need
+            # a file offset congruent to their address modulo more than the page size.
+            (4096, True, "relro", False), (None, True, None, False)]
 FULL = list(itertools.product((4096, 65536), (False, True), ("relro", "norelro"), (False, True)))
 
 
@@ -494,7 +498,7 @@ def main():
                         rows = [DEFAULT_ROW] + (PAIRWISE if v < (2 if arch == "x86_64" else 1)
                                                 else [])
                     else:
-                        rows = [DEFAULT_ROW] + ([PAIRWISE[(m + v) % 5]] if v == 0 else [])
+                        rows = [DEFAULT_ROW] + ([PAIRWISE[(m + v) % len(PAIRWISE)]] if v == 0 else [])
                     for row in rows_for(kind, rows):
                         refs = []
                         if thorough:
